@@ -217,3 +217,65 @@ Proof.
     split; [exact B1|]. split; [exact B2|]. rewrite B3. exact A3.
   - injection H as <- <-. auto.
 Qed.
+
+(* ---------- write faults ---------- *)
+Lemma scan_slots_ok : forall rs, scan_slots rs = E_OK <-> Forall (fun e => e = E_OK) rs.
+Proof.
+  induction rs as [|e r IH]; cbn [scan_slots].
+  - split; auto.
+  - destruct (N.eqb_spec e E_OK) as [->|Hne].
+    + rewrite IH. split; intro H; [constructor; auto | inversion H; auto].
+    + split; intro H; [congruence | inversion H; congruence].
+Qed.
+
+Lemma get_tracts_R : forall tl st f a b r st', R tl st f -> a < b -> get_tracts st a b = (r, st') -> R tl st' f.
+Proof.
+  intros tl st f a b [fi c] st' (A & B & C & D & E & F) Hab H.
+  destruct (get_tracts_spec st a b fi c st' B Hab H) as (_ & _ & G1 & G2 & G3 & _ & _ & _ & G7).
+  unfold R. rewrite G1, G2, G3. tauto.
+Qed.
+
+(* an acknowledged write under any set of armed write faults is the fault-free write: every byte is in place *)
+Lemma write_at_f_ack : forall tl repl fl st f off b n st', 0 < tl -> R tl st f -> (0 <= off)%Z ->
+  write_at_f tl repl fl st off b = ((n, E_OK), st') ->
+  n = rlen b /\ R tl st' (sf_write f (Z.to_N off) b).
+Proof.
+  intros tl repl fl st f off b n st' Htl HR Hoff H. unfold write_at_f in H.
+  destruct (Z.ltb_spec off 0) as [Ho|Ho]; [lia|].
+  destruct (N.eqb_spec (rlen b) 0) as [Hb|Hb].
+  { injection H as <- <-. unfold sf_write. rewrite Hb. cbn. auto. }
+  set (o := Z.to_N off) in *. set (start := o / tl) in *. set (e := (o + rlen b + tl - 1) / tl) in *.
+  assert (Hcreate : forall s, R tl s f ->
+    (if (ntr st <? e) && negb (scan_slots (slot_results fl 0 repl (ntr st) (e - ntr st)) =? E_OK)
+     then if start <? ntr st
+          then let '(wp, _, s') := write_at tl s off (rtake (ntr st * tl - o) b) in (wp, E_FAULT, s')
+          else if negb (scan_slots (slot_results fl 0 repl (ntr st) (start - ntr st)) =? E_OK)
+               then (0, E_FAULT, s)
+               else (0, E_FAULT, set_tracts s (create_empty (N.to_nat (start - ntr st)) (ntr st) (tracts s)) (N.max (ntr st) start))
+     else write_at tl s off b) = (n, E_OK, st') ->
+    n = rlen b /\ R tl st' (sf_write f o b)).
+  { intros s HRs Hc.
+    destruct ((ntr st <? e) && negb (scan_slots (slot_results fl 0 repl (ntr st) (e - ntr st)) =? E_OK)).
+    - destruct (start <? ntr st).
+      + destruct (write_at tl s off (rtake (ntr st * tl - o) b)) as [[wp x] s']. discriminate Hc.
+      + destruct (negb (scan_slots (slot_results fl 0 repl (ntr st) (start - ntr st)) =? E_OK)); discriminate Hc.
+    - destruct (write_at_R tl s f off b n E_OK st' Htl HRs Hoff Hc) as (H1 & _ & _ & H4). auto. }
+  destruct (start <? ntr st) eqn:Hs.
+  - destruct (negb (scan_slots (slot_results fl 0 repl start (N.min e (ntr st) - start)) =? E_OK)).
+    + destruct (get_tracts st start (N.min e (ntr st))) as [r1 stg] eqn:Hg.
+      assert (Hlt : start < N.min e (ntr st)).
+      { apply N.ltb_lt in Hs. destruct (tract_of tl o Htl) as (S1 & S2 & _). fold start in S1, S2.
+        destruct (ceil_tract tl (o + rlen b) Htl ltac:(lia)) as (E1 & E2 & E3).
+        replace ((o + rlen b + tl - 1) / tl) with e in * by (unfold e; f_equal; lia).
+        assert (start < e); [|lia].
+        destruct (N.lt_ge_cases start e) as [|Hge]; auto.
+        assert (e * tl <= start * tl) by (apply N.mul_le_mono_r; lia). lia. }
+      pose proof (get_tracts_R tl st f _ _ r1 stg HR Hlt Hg) as HRg.
+      destruct (rpcs stg =? rpcs st).
+      * destruct (negb (scan_slots (slot_results fl 1 repl start (N.min e (ntr st) - start)) =? E_OK)).
+        -- destruct (get_tracts (drop_cache stg) start (N.min e (ntr st))) as [r2 st2]. discriminate H.
+        -- apply (Hcreate (drop_cache stg)); auto. apply R_drop_cache; auto.
+      * discriminate H.
+    + apply (Hcreate st); auto.
+  - apply (Hcreate st); auto.
+Qed.
